@@ -30,3 +30,4 @@ INVARIANT Drift_WideCirc
 INVARIANT Drift_Measure
 INVARIANT Drift_FromStab
 INVARIANT Drift_Refusal
+INVARIANT Drift_Decompose
